@@ -51,6 +51,7 @@ class HtlcSpec:
         self.scid = kw.get('scid', False)
         self.tlv_amount = kw.get('tlv_amount', None)   # None | concrete bytes for record 33003
         self.extra_payload = kw.get('extra_payload', [])
+        self.meta_prefix = kw.get('meta_prefix', None)  # [(type, bytes)] placed before the invoice record inside the metadata
 
 class InvoiceSpec:
     def __init__(self, ident, hash_t, amount, sig_ok=True, hints=(), payee=None):
@@ -102,7 +103,7 @@ class Scenario:
     DEFAULTS = dict(
         htlcs=None, invoices=None, policy=None, cltv_delta=None, mpp_timeout_s=60, allow_self=True,
         store_init='free', max_parts=1, pay_outcomes=('complete', 'failed'), faults=0, fault_methods=(),
-        fault_codes=((-1, 'Rpc'),), write_faults=0, crash=0, crash_after_pays=0, pay_seq=None, stale_blocks=False, real_height_update=False, crash_reduced=True, crash_needs_live_part=False, timers=True, spurious=False, xpay=False,
+        fault_codes=((-1, 'Rpc'),), write_faults=0, crash=0, crash_after_pays=0, crash_shrinks_expiry=False, pay_seq=None, stale_blocks=False, real_height_update=False, crash_reduced=True, crash_needs_live_part=False, timers=True, spurious=False, xpay=False,
         height=None, blocks=0, wait_fail_codes=(204,), deliver_in_order=True, payee_releases=True,
         rng_free=True, max_total_parts=3, parts_can_fail=True, deliver_after_response=False, eager_tasks=False, strict_por=False,
     )
@@ -228,7 +229,10 @@ class Scenario:
             # parts of the interrupted attempt
             k = cfg.get('pending_parts', 1)
             for i in range(k):
-                p = Part(len(env.parts), inv.hash, groupid=1, partid=i + 1)
+                # with `old_parts_in_groups` every earlier part belongs to an attempt (group) of its own and all share
+                # part id 1: a part is identified by (groupid, partid)
+                g, pi = (1 + i, 1) if cfg.get('old_parts_in_groups') else (1, i + 1)
+                p = Part(len(env.parts), inv.hash, groupid=g, partid=pi)
                 p.status = ('pending', 'complete', 'failed')[m.choose(3, 'old.part%d' % i)]
                 env.parts.append(p)
         elif mode == 'succeeded':
@@ -246,7 +250,10 @@ class Scenario:
             entries.append(tlv_entry(typ, val))
         if spec.invoice is not None:
             inv = cfg['invoices'][spec.invoice]
-            meta = tlv_record(33001, inv.bytes())
+            meta = []
+            for typ, val in getattr(spec, 'meta_prefix', None) or []:      # records placed before the invoice record
+                meta += tlv_record(typ, val)
+            meta += tlv_record(33001, inv.bytes())
             if spec.tlv_amount is not None:
                 meta += tlv_record(33003, spec.tlv_amount)
             entries.append(tlv_entry(16, meta))
@@ -368,6 +375,17 @@ class Scenario:
         # HTLCs whose response had not been handed back are replayed by the node
         answered = set(k for (ep, k) in st.roots['responses'] if ep < st.roots['epoch'])
         st.roots['delivered'] = [k for k in st.roots['delivered'] if k in answered]
+        if self.cfg['crash_shrinks_expiry'] and m.choose(2, 'replayed htlcs: relative expiry now below the policy delta?') == 1:
+            # blocks were mined while the plugin was down: the replayed HTLCs now trip the relative-expiry check
+            import copy as _copy
+            specs = []
+            for sp in st.roots['specs']:
+                if sp.idx not in answered:
+                    sp = _copy.copy(sp)
+                    sp.cltv_rel = 10
+                specs.append(sp)
+            st.roots['specs'] = specs
+            m.event('replay_with_low_expiry')
 
     # ---- partial-order reduction ---------------------------------------------------------------
     def enabled_filter(self, m, trs):
